@@ -19,6 +19,16 @@ Engine T x G.  Two families of records are enumerated exhaustively:
 
 Containers: float64, int64, int16 and uint8 with large steps, list, tuple, and the float64 record scaled by
 1e-9 / 1e+6 (the transform is linear: the expectation scales with the values passed).
+Extreme but representable scales (the statement does not restrict the scale of the record): the float64 record x
+1e-170, 1e-120, 1e-50, 1e+40, 1e+120, 1e+160 (beyond the single-precision range on both sides, and where squares of the
+values under- / overflow) for every word up to the extreme-scale length bound and every sinusoid record: definition,
+marginal, inverse, and the dominant-frequency trace at array level (on the transform of EVERY container) and at
+object level (fresh objects of both classes).
+What an object-level call leaves on the object: after every get_max_stockwell_freq(asig) the transform held by the
+object (asig.swtf, and any other public complex (n/2) x n array the call put there) must be THE Stockwell transform
+of the record held - same definition, marginal and inverse (itransform of it) sub-claims and the same tolerances as for
+the array-level result; an object that keeps no transform is accepted.  Checked on word, long and sinusoid records,
+on fresh objects (all amplitudes) and at every step of the history sequence.
 Call sequences: the same call repeated after the caller overwrote the returned array; A, partners, A again;
 the object-level dominant-frequency trace on objects with a history (another record of another length held and
 traced before, reset_values, the transform restored on the object by the caller as the library's own tests do,
@@ -35,7 +45,7 @@ import numpy as np
 
 from ..target import eqsig, stockwell
 from ..result import Res
-from ..compare import words, snapshot
+from ..compare import words, snapshot, close, to_array
 
 SIGMA = (-1, 0, 2)
 PHASES = (0, 0.5, 1, 2)
@@ -48,6 +58,8 @@ LONG_QUICK = (65, 127, 128, 129, 255, 256, 257, 511, 512, 513, 1001, 1002, 1003,
 LONG_THOROUGH = LONG_QUICK + (100, 200, 300, 400, 500, 600, 700, 800, 900, 1000, 1004, 1021, 1022)
 CONTAINERS = ['float64', 'int64', 'int16 x15000', 'uint8 x125 (words without -1)', 'list', 'tuple', 'float64 x1e-9', 'float64 x1e+6']
 AMPS = (1.0, 1e-9, 1e6)
+EXTREME_AMPS = (1e-170, 1e-120, 1e-50, 1e40, 1e120, 1e160)
+LEXT = 6                         # extreme-scale containers: every word up to this length (+ every sinusoid record)
 EXTRA_DTS = (1e-6, 40.0)         # fresh-object trace only
 CLASSES = ('Signal', 'AccSignal')
 
@@ -70,18 +82,16 @@ def build(tier, seed):
         cases.append({'kind': 'word', 'w': list(w), 'pairs': 'all' if len(w) <= lpair else 'menu'})
     for n in sin_small + sin_loop_extra:
         for k0 in k0_range(n):
-            cases.append({'kind': 'sin', 'n': n, 'k0': k0, 'phases': list(PHASES), 'ref': 'loop'})
+            cases.append({'kind': 'sin', 'n': n, 'k0': k0, 'phases': list(PHASES), 'ref': 'loop', 'amps': 'full'})
     for n in sin_matrix:
         for k0 in k0_range(n):
             for ph in PHASES:
-                cases.append({'kind': 'sin', 'n': n, 'k0': k0, 'phases': [ph], 'ref': 'matrix'})
+                cases.append({'kind': 'sin', 'n': n, 'k0': k0, 'phases': [ph], 'ref': 'matrix', 'amps': 'unit'})
     # the expensive cases (matrix-form reference) are spread over the front of the list, one per pool chunk
     heavy = [{'kind': 'long', 'n': n} for n in reversed(long_n)]
     for n in top_n:
         for k0 in (k0_range(n)[0], k0_range(n)[-1]):
-            c = {'kind': 'sin', 'n': n, 'k0': k0, 'phases': [0.5], 'ref': 'matrix'}
-            if c not in cases:
-                heavy.append(c)
+            heavy.append({'kind': 'sin', 'n': n, 'k0': k0, 'phases': [0.5], 'ref': 'matrix', 'amps': 'full'})
     for i, c in enumerate(heavy):
         cases.insert(min(len(cases), 3 + 70 * i), c)
     return {
@@ -92,13 +102,19 @@ def build(tier, seed):
                 'with 2 <= k0 <= 0.75*n/2, phases %s, dt in %s (reference: scalar triple loop for n <= 128, matrix '
                 'form of the same sum above) + k0 in {min, max}, phase 0.5 at n in %s; long family: one mixed record for every n '
                 'in %s (matrix form); containers %s; trace on {Signal, AccSignal} objects: fresh, amplitudes %s, and the history '
-                'sequence of the module docstring; non-trivial = even truncation of the record is not constant'
+                'sequence of the module docstring; extreme scales %s: float64 containers for every word of length <= %d and every '
+                'sinusoid record with n <= 128 or n in %s (definition, marginal, inverse, array-level trace on every container, '
+                'object-level trace on fresh objects); after every object-level call the transform left on the object '
+                '(asig.swtf) against the same reference (word, long and sinusoid records, every history step); '
+                'non-trivial = even truncation of the record is not constant'
                 % (lw, lpair, list(COEFS), '8..64' + ('' if quick else ' + [96,128,256,512,1024]'),
-                   list(PHASES), list(DTS), top_n, list(long_n), CONTAINERS, list(AMPS)),
+                   list(PHASES), list(DTS), top_n, list(long_n), CONTAINERS, list(AMPS), list(EXTREME_AMPS), LEXT, top_n),
         'bounds': {'alphabet': SIGMA, 'word_len': [4, lw], 'all_pairs_up_to_len': lpair,
                    'sin_n': [8, 64] if quick else [8, 64, 96, 128, 256, 512, 1024], 'phases': PHASES, 'dt': DTS, 'extra_dt_fresh_trace': EXTRA_DTS,
                    'k0': '2 <= k0 <= 0.75*n/2', 'middle_half': 'N/4 <= j < 3N/4', 'long_n': list(long_n),
                    'top_sinusoid_n': top_n, 'containers': CONTAINERS, 'amplitudes': list(AMPS),
+                   'extreme_amplitudes': list(EXTREME_AMPS), 'extreme_scale_word_len': [4, LEXT],
+                   'object_classes': list(CLASSES),
                    'tol': {'definition': 1e-10, 'agree': 1e-10, 'linear': 1e-10, 'marginal': 1e-10,
                            'inverse': 1e-12, 'maxfreq': 1e-9}},
         'required_classes': ['odd-n', 'even-n', 'sin-odd-n', 'sin-even-n', 'dt=0.01', 'dt=0.5', 'int-input',
@@ -107,9 +123,18 @@ def build(tier, seed):
                              'length-above-1000', 'long-odd-n', 'long-pow2', 'i16-input', 'u8-input', 'tuple-input',
                              'scaled-1e-09', 'scaled-1e+06', 'a-b-a', 'returned-array-overwritten', 'trace-Signal',
                              'trace-AccSignal', 'trace-after-other-length', 'trace-transform-restored-by-caller',
-                             'trace-returned-array-overwritten', 'trace-amplitude-1e-09', 'trace-amplitude-1e+06'],
+                             'trace-returned-array-overwritten', 'trace-amplitude-1e-09', 'trace-amplitude-1e+06']
+                            + ['scaled-%.0e' % a for a in EXTREME_AMPS] + ['trace-amplitude-%.0e' % a for a in EXTREME_AMPS]
+                            + ['tifq-amplitude-%.0e' % a for a in EXTREME_AMPS]
+                            + ['object-keeps-transform', 'object-transform-word', 'object-transform-long',
+                               'object-transform-sinusoid', 'object-transform-history'],
         'assumptions': ['word records: sample values in {-1,0,2} (x 15000 as int16, x 125 as uint8 for words without -1, x 1e-9 and '
-                        'x 1e+6 as float64); lengths above the word bound only through the sinusoid and long families',
+                        'x 1e+6 as float64, x %s as float64 for the words of length <= %d); lengths above the word bound only '
+                        'through the sinusoid and long families' % (list(EXTREME_AMPS), LEXT),
+                        'record scales between 1e-170 and 1e+160 (peak value); nothing is assumed about scales outside',
+                        'the transform an object-level call leaves on the object is read from asig.swtf (the attribute the '
+                        'library, its tests and its plot helpers use) and from any other public attribute the call added that '
+                        'holds a complex (n/2) x n array; an object that keeps no transform is accepted',
                         'float32 records are not examined (the unchanged tree transforms them in single precision)',
                         'an object whose record was replaced carries either no transform (clear_cache removed it) or the '
                         'transform of its current record, stored in asig.swtf by the caller',
@@ -197,6 +222,13 @@ def ref_inverse(h):
 # ------------------------------------------------------------------------------------------
 CONTAINER_CLASS = {'i64': 'int-input', 'list': 'list-input', 'i16': 'i16-input', 'u8': 'u8-input', 'tuple': 'tuple-input',
                    'f64*1e-09': 'scaled-1e-09', 'f64*1e+06': 'scaled-1e+06'}
+CONTAINER_CLASS.update(('f64*%.0e' % a, 'scaled-%.0e' % a) for a in EXTREME_AMPS)
+
+
+def scaled_containers(x, amps):
+    """[(name, factory, factor)]: the float64 record times each amplitude."""
+    x = np.array(x, dtype=float)
+    return [('f64*%.0e' % a, (lambda a=a: a * x), a) for a in amps if a != 1.0]
 
 
 def cmax(a):
@@ -207,11 +239,35 @@ def cmax(a):
         return 0.0
 
 
-def check_one_record(r, sub, x_float, containers, want, F, do_def):
+def expect_close_2d(r, claim, sub, got, want, rtol, scale, what=''):
+    """Res.expect_close for time-frequency arrays: same verdict, but a mismatch is reported with its worst cell
+    (row, column, value, expected value) instead of the whole array."""
+    r.n_cmp += 1
+    ok, err, why = close(got, want, rtol=rtol, scale=scale)
+    if ok:
+        return True
+    obs, exp = None, None
+    g, w = to_array(got), to_array(want)
+    if g is not None and w is not None and g.shape == w.shape and g.size:
+        with np.errstate(all='ignore'):
+            d = np.abs(g - w)
+            d = np.where(np.isfinite(d), d, np.inf)
+        idx = np.unravel_index(int(np.argmax(d)), d.shape)
+        obs = {'worst_cell': [int(i) for i in idx], 'value': complex(g[idx]), 'dtype': str(g.dtype)}
+        exp = {'value': complex(w[idx])}
+    elif g is not None:
+        obs = {'shape': list(g.shape), 'dtype': str(g.dtype)}
+        exp = {'shape': list(w.shape)} if w is not None else None
+    else:
+        obs = type(got).__name__
+    return r.fail(claim, sub, (what + ': ' if what else '') + why, err=err, observed=obs, expected=exp)
+
+
+def check_one_record(r, sub, x_float, containers, want, F, do_def, allouts=None):
     """All single-record sub-claims.  x_float: float64 record (length n).  containers: list of
     (name, factory, factor): the argument object holds factor * x_float.  want: expected (N/2, N) array for x_float or
     None (the definition is linear: factor * want is expected).  F: un-normalised DFT coefficients F[0..N-1] of the even
-    truncation.  Returns {impl: output on float64}."""
+    truncation.  Returns {impl: output on float64}; allouts (dict) receives {(impl, container): (output, factor)}."""
     n = len(x_float)
     N = n // 2 * 2
     h = [float(v) for v in x_float[:N]]
@@ -244,14 +300,16 @@ def check_one_record(r, sub, x_float, containers, want, F, do_def):
                      'result is not an (n/2) x n complex array (n = even truncation)', observed=(shp, is_c),
                      expected=((N // 2, N), True))
             if want is not None and do_def:
-                r.expect_close('definition', s2, out, fac * want if fac != 1 else want, rtol=1e-10,
-                               scale=fac * max(peak, cmax(want)))
+                expect_close_2d(r, 'definition', s2, out, fac * want if fac != 1 else want, rtol=1e-10,
+                                scale=fac * max(peak, cmax(want)))
             # Fourier marginal: sum over time of row (frequency k) = conj(F[k]), rows k = N/2..1
             try:
                 got_m = np.sum(np.asarray(out), axis=1)
             except Exception:
                 got_m = None
             r.expect_close('marginal', s2, got_m, fac * want_m1, rtol=1e-10, scale=fac * max(peak, cmax(want_m1)))
+            if allouts is not None and cname != 'f64':
+                allouts[(iname, cname)] = (out, fac)
             if cname == 'f64':
                 outs[iname] = out
                 # the same call again after the caller overwrote what it was given: same result
@@ -262,17 +320,19 @@ def check_one_record(r, sub, x_float, containers, want, F, do_def):
                     keep = None
                 if keep is not None:
                     outs[iname] = keep
+                    if allouts is not None:
+                        allouts[(iname, cname)] = (keep, fac)
                     r.cls('returned-array-overwritten')
                     ok, out2 = r.call('definition', dict(s2, step='again-after-result-overwritten'), fn, make())
                     if ok:
                         r.transitions += 1
-                        r.expect_close('same-call-same-result', s2, out2, keep, rtol=1e-13, scale=max(peak, cmax(keep)),
-                                       what='second call, first result overwritten by the caller')
+                        expect_close_2d(r, 'same-call-same-result', s2, out2, keep, rtol=1e-13, scale=max(peak, cmax(keep)),
+                                        what='second call, first result overwritten by the caller')
     # both implementations agree
     if 'transform' in outs and 'scipy' in outs:
         r.transitions += 1
-        r.expect_close('agree', sub, outs['scipy'], outs['transform'], rtol=1e-10,
-                       scale=max(peak, cmax(outs['transform'])))
+        expect_close_2d(r, 'agree', sub, outs['scipy'], outs['transform'], rtol=1e-10,
+                        scale=max(peak, cmax(outs['transform'])))
     # inverse
     inv_want, mean, nyq = ref_inverse(h)
     if abs(mean) > 1e-9 * max(peak, 1e-300):
@@ -280,7 +340,7 @@ def check_one_record(r, sub, x_float, containers, want, F, do_def):
     if abs(nyq) > 1e-9 * max(peak, 1e-300):
         r.cls('nonzero-nyquist')
     for iname in outs:
-        for fac in (1.0,) + tuple(a for a in AMPS if a != 1.0):
+        for fac in (1.0,) + tuple(a for a in AMPS if a != 1.0) + EXTREME_AMPS:
             s2 = dict(sub, impl=iname) if fac == 1.0 else dict(sub, impl=iname, scaled=fac)
             try:
                 stock = np.array(outs[iname], copy=True) * fac
@@ -301,6 +361,99 @@ def check_one_record(r, sub, x_float, containers, want, F, do_def):
                     if ok:
                         r.expect_close('same-call-same-result', dict(s2, fn='itransform'), inv2, keep, rtol=1e-13, scale=peak)
     return outs
+
+
+def left_on_object(s, before):
+    """[(attribute name, array)]: the transform(s) the object holds now - asig.swtf, and any other public attribute
+    that was not there before the call and holds a two-dimensional complex array."""
+    out = []
+    try:
+        now = dict(vars(s))
+    except Exception:
+        return out
+    for name in sorted(now):
+        v = now[name]
+        if name == 'swtf':
+            out.append((name, v))
+        elif name not in before and not name.startswith('_') and isinstance(v, np.ndarray) and v.ndim == 2 \
+                and np.iscomplexobj(v):
+            out.append((name, v))
+    return out
+
+
+def attr_names(s):
+    try:
+        return set(vars(s))
+    except Exception:
+        return set()
+
+
+def check_left(r, sub, s, before, h, want, fac, F=None, family=None):
+    """What an object-level call left on the object must be the Stockwell transform of the record the object holds
+    (fac * h, h the even truncation as a list of floats; want = expected array for h or None; F = un-normalised DFT of h
+    or None): same sub-claims and tolerances as for the array-level result.  Nothing kept: accepted."""
+    held = left_on_object(s, before)
+    if not held:
+        r.cls('object-keeps-no-transform')
+        return
+    r.cls('object-keeps-transform')
+    if family:
+        r.cls('object-transform-' + family)
+    N = len(h)
+    peak = max([abs(v) for v in h] + [0.0])
+    for name, arr in held:
+        s2 = dict(sub, attr=name)
+        r.transitions += 1
+        try:
+            a = np.asarray(arr)
+            shp, is_c = tuple(a.shape), bool(np.iscomplexobj(a))
+        except Exception:
+            a, shp, is_c = None, None, False
+        if not r.expect('object.shape', s2, shp == (N // 2, N) and is_c,
+                        'the transform left on the object is not an (n/2) x n complex array', observed=(shp, is_c),
+                        expected=((N // 2, N), True)):
+            continue
+        if want is not None:
+            expect_close_2d(r, 'object.definition', s2, a, fac * want if fac != 1 else want, rtol=1e-10,
+                            scale=fac * max(peak, cmax(want)), what='asig.%s after the object-level call' % name)
+        if F is not None:
+            want_m1 = np.array([F[k].conjugate() for k in range(N // 2, 0, -1)], dtype=complex)
+            r.expect_close('object.marginal', s2, np.sum(a, axis=1), fac * want_m1, rtol=1e-10,
+                           scale=fac * max(peak, cmax(want_m1)), what='row sums of asig.%s' % name)
+        inv_want, _, _ = ref_inverse(h)
+        snap = np.array(a, copy=True)
+        ok, inv = r.call('object.inverse', s2, stockwell.itransform, arr)
+        if ok:
+            r.expect_close('object.inverse', s2, inv, fac * np.array(inv_want, dtype=float), rtol=1e-12, scale=fac * peak,
+                           what='itransform(asig.%s)' % name)
+        r.expect('unchanged', dict(s2, fn='itransform'), np.array_equal(np.asarray(arr), snap),
+                 'transform held by the object modified by itransform')
+
+
+def check_object_level(r, sub, x_float, want, F, family):
+    """The object-level entry point on a fresh object of either class holding the record: whatever it leaves on the object
+    is the transform of the record; the record itself is untouched."""
+    n = len(x_float)
+    N = n // 2 * 2
+    h = [float(v) for v in x_float[:N]]
+    for cname in CLASSES:
+        s2 = dict(sub, cls=cname, entry='object')
+        r.states += 1
+        st = {}
+
+        def run():
+            st['s'] = getattr(eqsig, cname)(np.array(x_float, dtype=float), DTS[0])
+            st['before'] = attr_names(st['s'])
+            return stockwell.get_max_stockwell_freq(st['s'])
+        ok, mf = r.call('object.returns', s2, run)
+        if not ok:
+            continue
+        check_left(r, s2, st['s'], st['before'], h, want, 1, F, family)
+        try:
+            same = np.array_equal(np.asarray(st['s'].values, dtype=float), np.asarray(x_float, dtype=float))
+        except Exception:
+            same = False
+        r.expect('unchanged', dict(s2, fn='get_max_stockwell_freq'), same, 'the record held by the object changed')
 
 
 def check_linearity(r, sub, x, y, tx):
@@ -325,8 +478,8 @@ def check_linearity(r, sub, x, y, tx):
             except Exception as e:
                 r.fail('linear', s3, 'cannot combine the two transforms: %s' % e)
                 continue
-            r.expect_close('linear', s3, tz, want, rtol=1e-10,
-                           scale=max(cmax(want), cmax(x) * abs(a) + cmax(y) * abs(b)))
+            expect_close_2d(r, 'linear', s3, tz, want, rtol=1e-10,
+                            scale=max(cmax(want), cmax(x) * abs(a) + cmax(y) * abs(b)))
 
 
 def menu_partners(w):
@@ -358,10 +511,11 @@ def run_word(case):
                   ('i16', lambda: np.array([15000 * v for v in w], dtype=np.int16), 15000)]
     if min(w) >= 0:
         containers.append(('u8', lambda: np.array([125 * v for v in w], dtype=np.uint8), 125))
-    for a in AMPS:
-        if a != 1.0:
-            containers.append(('f64*%.0e' % a, (lambda a=a: a * np.array(w, dtype=float)), a))
+    containers += scaled_containers(w, AMPS)
+    if n <= LEXT:
+        containers += scaled_containers(w, EXTREME_AMPS)
     outs = check_one_record(r, sub, x, containers, want, F, True)
+    check_object_level(r, sub, x, want, F, 'word')
     # linearity
     if case.get('pairs') == 'all':
         partners = [list(p) for p in words(SIGMA, n, n) if list(p) > w]
@@ -379,7 +533,7 @@ def run_word(case):
             ok, out = r.call('definition', s2, getattr(stockwell, attr), np.array(w, dtype=float))
             if ok:
                 r.transitions += 1
-                r.expect_close('definition', s2, out, want, rtol=1e-10, scale=max(float(max(abs(v) for v in w)), cmax(want)))
+                expect_close_2d(r, 'definition', s2, out, want, rtol=1e-10, scale=max(float(max(abs(v) for v in w)), cmax(want)))
     return r
 
 
@@ -406,6 +560,7 @@ def run_long(case):
     F = [complex(v) for v in F]
     check_one_record(r, {'long': n, 'rec': 'mixed'}, x, [('f64', lambda: x.copy(), 1), ('i64', lambda: np.array(w, dtype=np.int64), 1)],
                      want, F, True)
+    check_object_level(r, {'long': n, 'rec': 'mixed'}, x, want, F, 'long')
     return r
 
 
@@ -445,37 +600,74 @@ def run_sin(case):
             want, F = ref_stockwell_matrix(h)
             F = [complex(v) for v in F]
         r.cls('definition-on-sinusoid')
-        outs = check_one_record(r, sub, x, [('f64', lambda: x.copy(), 1)], want, F, True)
-        f64 = outs.get('transform')
+        full = case.get('amps', 'full' if case['ref'] == 'loop' else 'unit') == 'full'
+        containers = [('f64', lambda: x.copy(), 1)]
+        if full:
+            containers += scaled_containers(x, AMPS + EXTREME_AMPS)
+        allouts = {}
+        outs = check_one_record(r, sub, x, containers, want, F, True, allouts)
         light = case['ref'] != 'loop'       # long lengths: fresh objects and one history only
+        obj_amps = (AMPS + EXTREME_AMPS) if full else (1.0,)
+        # references for the other records the history sequence puts on the object (matrix form, witnessed above)
+        hist = history_records(n, k0, ph)
         for dt in DTS + EXTRA_DTS:
             r.cls('dt=%s' % dt)
             s2 = dict(sub, dt=dt)
             f0 = k0 / (N * dt)
             wantf = np.full(hi - lo, f0)
             for cname in CLASSES:
-                for amp in AMPS:
-                    if (light or dt in EXTRA_DTS) and (amp != 1.0):
+                for amp in obj_amps:
+                    if dt in EXTRA_DTS and amp != 1.0:
                         continue
                     s3 = dict(s2, cls=cname) if amp == 1.0 else dict(s2, cls=cname, amplitude=amp)
                     r.states += 1
                     r.cls('trace-' + cname)
                     if amp != 1.0:
                         r.cls('trace-amplitude-%.0e' % amp)
+                    st = {}
 
                     def trace():
-                        s = getattr(eqsig, cname)(amp * x, dt)      # fresh object: the function caches asig.swtf
-                        return stockwell.get_max_stockwell_freq(s)
+                        st['s'] = getattr(eqsig, cname)(amp * x, dt)      # fresh object: the function caches asig.swtf
+                        st['before'] = attr_names(st['s'])
+                        return stockwell.get_max_stockwell_freq(st['s'])
                     ok, mf = r.call('maxfreq', s3, trace)
                     if ok:
                         check_trace(r, 'maxfreq', s3, mf, lo, hi, wantf)
+                        # what the call left on the object: the transform of the record held (amp * x)
+                        check_left(r, s3, st['s'], st['before'], h, want, amp, F, 'sinusoid')
                 if dt in DTS:
-                    trace_history(r, dict(s2, cls=cname), cname, x, n, k0, ph, dt, light)
-            if f64 is not None:
-                ok, mf = r.call('maxfreq.tifq', s2, stockwell.get_max_tifq_vals_freq, f64, dt)
+                    trace_history(r, dict(s2, cls=cname), cname, x, n, k0, ph, dt, light, hist, want)
+            # array level: the trace of the transform of EVERY container (both implementations)
+            for (iname, cname), (out, fac) in sorted(allouts.items()):
+                s3 = dict(s2, impl=iname, input=cname)
+                if fac in EXTREME_AMPS:
+                    r.cls('tifq-amplitude-%.0e' % fac)
+                snap = np.array(out, copy=True)
+                ok, mf = r.call('maxfreq.tifq', s3, stockwell.get_max_tifq_vals_freq, out, dt)
                 if ok:
-                    check_trace(r, 'maxfreq.tifq', s2, mf, lo, hi, wantf)
+                    check_trace(r, 'maxfreq.tifq', s3, mf, lo, hi, wantf)
+                r.expect('unchanged', dict(s3, fn='get_max_tifq_vals_freq'), np.array_equal(np.asarray(out), snap),
+                         'transform array modified by get_max_tifq_vals_freq')
     return r
+
+
+def history_records(n, k0, ph):
+    """The other two records of the history sequence and the references of their transforms:
+    {'y': (record, k, expected array), 'z': ...}; y: same length, another frequency; z: another length (other parity)."""
+    ks = k0_range(n)
+    ky = ks[0] if k0 != ks[0] else ks[-1]
+    y = sin_record(n, ky, ph)
+    nz = n + 5
+    kz = k0_range(nz)[-1]
+    z = sin_record(nz, kz, ph)
+    out = {}
+    for key, rec, k in (('y', y, ky), ('z', z, kz)):
+        hh = [float(v) for v in rec[:len(rec) // 2 * 2]]
+        if key == 'z' and n > 128:
+            out[key] = (rec, k, hh, None)          # long lengths: the z record is only the object's past
+        else:
+            out[key] = (rec, k, hh, ref_stockwell_matrix(hh)[0])
+    return out
 
 
 def check_trace(r, claim, sub, mf, lo, hi, wantf):
@@ -506,20 +698,19 @@ def exercise(s):
             pass
 
 
-def trace_history(r, sub, cname, x, n, k0, ph, dt, light):
+def trace_history(r, sub, cname, x, n, k0, ph, dt, light, hist, want_x):
     """get_max_stockwell_freq on ONE object through a history.  At every step the object holds an in-domain sinusoid and
     either no transform (reset_values -> clear_cache removed it) or the transform of its current record put there by the
     caller (asig.swtf = stockwell.transform(asig.values), as the library's own tests do): the trace must be that of the record
     held now."""
     N = n // 2 * 2
-    ks = k0_range(n)
-    ky = ks[0] if k0 != ks[0] else ks[-1]
-    y = sin_record(n, ky, ph)                   # same length, another frequency
-    nz = n + 5                                  # another length (other parity)
-    kz = k0_range(nz)[-1]
-    z = sin_record(nz, kz, ph)
+    y, ky, hy, want_y = hist['y']               # same length, another frequency
+    z, kz, hz, want_z = hist['z']               # another length (other parity)
+    nz = len(z)
     Nz = nz // 2 * 2
+    hx = [float(v) for v in x[:N]]
     fx, fy, fz = k0 / (N * dt), ky / (N * dt), kz / (Nz * dt)
+    held_now = {'x': (hx, want_x), 'y': (hy, want_y), 'z': (hz, want_z)}
     state = {}
 
     def prepare():
@@ -555,11 +746,15 @@ def trace_history(r, sub, cname, x, n, k0, ph, dt, light):
                 return
         r.states += 1
         r.transitions += 1
+        before = attr_names(s)
         ok, mf = r.call('maxfreq', s3, stockwell.get_max_stockwell_freq, s)
         if not ok:
             continue
         lo, hi = middle(nn)
         check_trace(r, 'maxfreq', s3, mf, lo, hi, np.full(hi - lo, f))
+        # what is on the object now is the transform of the record held now
+        hh, ww = held_now['z' if 'values(z)' in step else 'y' if 'values(y)' in step else 'x']
+        check_left(r, s3, s, before, hh, ww, 1, None, 'history')
         if step == 'reset_values(x)':
             try:
                 keep = np.array(mf, copy=True)
@@ -587,7 +782,10 @@ def snippet(case, v):
                 "a = st.transform(x); b = st.transform_w_scipy_fft(x)\n"
                 "print(a.shape, np.max(np.abs(a - b)))\nprint(a)\n"
                 "print('row sums', a.sum(axis=1), 'conj fft', np.conj(np.fft.fft(x[:len(x)//2*2]))[1:len(x)//2+1][::-1])\n"
-                "print('inverse', st.itransform(a))\n" % (sub,))
+                "print('inverse', st.itransform(a))\n"
+                "import eqsig\ns = getattr(eqsig, sub.get('cls', 'AccSignal'))(x.copy(), 0.01); st.get_max_stockwell_freq(s)\n"
+                "if hasattr(s, 'swtf'): print('left on the object by get_max_stockwell_freq:', s.swtf.dtype, "
+                "'max |asig.swtf - transform(x)| =', np.max(np.abs(s.swtf - a)))\n" % (sub,))
     if case['kind'] == 'long':
         return ("import numpy as np\nfrom eqsig import stockwell as st\n"
                 "n = %d; x = np.array([(-1, 0, 2)[(t * t + t // 2) %% 3] for t in range(n)], float); N = n // 2 * 2\n"
@@ -609,7 +807,12 @@ def snippet(case, v):
                 "print('after reset_values + caller-restored swtf:', st.get_max_stockwell_freq(s)[-(-N // 4):-(-3 * N // 4)])\n" % (sub,))
     return ("import numpy as np, eqsig\nfrom eqsig import stockwell as st\n"
             "sub = %r\nn, k0, ph = sub['n'], sub['k0'], sub['phase']; N = n // 2 * 2; dt = sub.get('dt', 0.01)\n"
-            "x = np.sin(2 * np.pi * k0 * np.arange(n) / N + ph)\n"
-            "mf = st.get_max_stockwell_freq(eqsig.AccSignal(x, dt))\n"
-            "print('expected', k0 / (N * dt), 'middle half', mf[-(-N // 4):-(-3 * N // 4)])\n"
-            "a = st.transform(x); print(a.shape, np.max(np.abs(a - st.transform_w_scipy_fft(x))))\n" % (sub,))
+            "amp = float(sub.get('amplitude', 1.0)) if '*' not in str(sub.get('input')) else float(sub['input'].split('*')[1])\n"
+            "x = amp * np.sin(2 * np.pi * k0 * np.arange(n) / N + ph)\n"
+            "s = getattr(eqsig, sub.get('cls', 'AccSignal'))(x, dt); mf = st.get_max_stockwell_freq(s)\n"
+            "print('expected', k0 / (N * dt), 'object level, middle half', mf[-(-N // 4):-(-3 * N // 4)])\n"
+            "a = st.transform(x); print(a.shape, np.max(np.abs(a - st.transform_w_scipy_fft(x))) / amp)\n"
+            "print('array level, middle half', st.get_max_tifq_vals_freq(a, dt)[-(-N // 4):-(-3 * N // 4)])\n"
+            "if hasattr(s, 'swtf'): print('left on the object:', s.swtf.dtype, 'max |asig.swtf - transform(x)| / amp =', "
+            "np.max(np.abs(s.swtf - a)) / amp, 'itransform(asig.swtf) vs itransform(transform(x)):', "
+            "np.max(np.abs(st.itransform(s.swtf) - st.itransform(a))) / amp)\n" % (sub,))
